@@ -317,10 +317,10 @@ def threshold_job(seed, tier):
                         failures.append(_fail("spec.combine(first k real shares) != secret", dict(info, got=repr(sp)), ["spec.combine(shares[:k]) == secret"]))
                     m_avail = len(shares)
                     if m_avail >= k:
-                        if n <= 6 or tier != "quick" and n <= 9:
+                        if n <= 6 or tier != "quick" and n <= 10:
                             subsets = list(itertools.combinations(range(m_avail), k))
                         else:
-                            subsets = [tuple(sorted(rng.sample(range(m_avail), k))) for _ in range(4 if tier == "quick" else 12)]
+                            subsets = [tuple(sorted(rng.sample(range(m_avail), k))) for _ in range(4 if tier == "quick" else 30)]
                             subsets.append(tuple(range(m_avail - k, m_avail)))
                         if k < m_avail:
                             subsets.append(tuple(range(m_avail)))                 # all shares
@@ -337,10 +337,10 @@ def threshold_job(seed, tier):
                                 failures.append(_fail("%d of the n=%d shares of a %d-of-%d split do not recover the mnemonic" % (len(A), n, k, n),
                                                       dict(info, subset=list(A), got=got), ["recover_mnemonic(any >= k shares) == mnemonic"]))
                     if k >= 2:
-                        if n <= 6:
+                        if n <= 6 or tier != "quick" and n <= 10:
                             below = list(itertools.combinations(range(m_avail), k - 1))
                         else:
-                            below = [tuple(sorted(rng.sample(range(m_avail), k - 1))) for _ in range(3 if tier == "quick" else 10)]
+                            below = [tuple(sorted(rng.sample(range(m_avail), k - 1))) for _ in range(3 if tier == "quick" else 30)]
                         for A in below:
                             evals += 1
                             try:
@@ -377,9 +377,9 @@ def threshold_job(seed, tier):
                     failures.append(_fail("shares made by the SLIP-39 spec are not recovered by the real code",
                                           {"k": k, "n": n, "subset": A, "secret": secret, "id": ident, "got": got}, ["recover(spec shares) == secret"]))
     return _res(t0, evals, len(distinct), failures, samples,
-                "all 136 (k,n) x {128,256} bits; all k-subsets and all (k-1)-subsets for n <= 6, sampled otherwise (+ full set, one (k+1)-subset); "
+                "all 136 (k,n) x {128,256} bits; all k-subsets and all (k-1)-subsets for n <= %d, sampled otherwise (+ full set, one (k+1)-subset); "
                 "3 passphrases; exponent %s; share randomness seeded; below-threshold outcomes observed: %r" % (
-                    "0" if tier == "quick" else "0..2", outcomes_below))
+                    6 if tier == "quick" else 10, "0" if tier == "quick" else "0..2", outcomes_below))
 
 
 def mixing_job(seed, tier):
@@ -480,8 +480,8 @@ def corruption_job(seed, tier):
     t0 = time.time()
     evals, failures, samples = 0, [], []
     words = SLIP39.words
-    nshares = 6 if tier == "quick" else 16
-    nmulti = 60000 if tier == "quick" else 600000
+    nshares = 6 if tier == "quick" else 40
+    nmulti = 60000 if tier == "quick" else 2000000
     with _SeededRandbits(rng):
         for rep in range(nshares):
             bits = (128, 256)[rep % 2]
